@@ -21,14 +21,58 @@ TREE = "regex_radix_tree::tree::RegexTreeMap"
 LAZY = "regex::LazyRegex"
 
 
+def traversal_roles(F, op):
+    """The functions that carry out tree operation `op`, found from the public entry point through the
+    call graph (names below the entry point are free to change): the RegexTreeMap method, the Item
+    dispatchers, the Node function looping over `self.children`, the Leaf function reading `self.values`."""
+    tree = F.method(TREE, op)
+    cg = F.callgraph()
+    seen = {tree.path}
+    todo = [tree]
+    found = {ITEM: [], NODE: [], LEAF: []}
+    while todo:
+        f = todo.pop()
+        for path in sorted(cg.edges.get(f.path, ())):
+            g = F.fns.get(path)
+            if g is None or path in seen or g.is_closure or g.adt not in found or g.trait:
+                continue
+            seen.add(path)
+            found[g.adt].append(g)
+            todo.append(g)
+    nodes = [g for g in found[NODE] if any(lp.source == ("field", ("param", 1), "children", NODE) for lp in for_loops(g))]
+    if not nodes:  # no plain loop: the function reading `self.children` some other way (reported by the rule)
+        nodes = [g for g in found[NODE] if any(mentions_field(a, "children", NODE) for p in Sym(g, copies=True).paths() for e in p.events if e[0] == "call" for a in e[2])]
+    leaves = [g for g in found[LEAF] if any(mentions_field(a, "values", LEAF) for p in Sym(g, copies=True).paths() for e in p.events if e[0] == "call" for a in e[2])]
+    if len(nodes) != 1 or len(leaves) != 1 or not found[ITEM]:
+        raise MissingAnchor("traversal functions of RegexTreeMap::%s: %d Node loops, %d Leaf readers, %d Item dispatchers" % (op, len(nodes), len(leaves), len(found[ITEM])))
+    return tree, found[ITEM], nodes[0], leaves[0]
+
+
+def _args_mention(e, what):
+    return any(mentions(a, lambda x: x == what) for a in e[2])
+
+
+def _acc_param(f):
+    """Index of a `&mut Vec<..>` parameter (results appended to a caller-owned accumulator), or None."""
+    for i in range(2, f.argc + 1):
+        t = f.local_ty(i)
+        if t.get("k") == "ref" and t.get("mut") and "std::vec::Vec" in t.get("adts", ()):
+            return i
+    return None
+
+
 def r08_1(ctx, rid="R08.1"):
     F = ctx.facts
 
     def body(r):
-        # Node::find / get / get_mut / trace: own test, then all children, union, no early exit
-        for name, test, child in (("find", LAZY + "::is_match", ITEM + "::find"), ("get", "str::starts_with", ITEM + "::get"), ("get_mut", "str::starts_with", ITEM + "::get_mut")):
-            f = F.method(NODE, name)
+        # Node::find / get / get_mut: own test, then all children, union, no early exit.  The result is
+        # either returned (a vector built from the children's vectors) or appended to an accumulator
+        # the caller passes down; the functions are found by role from RegexTreeMap::<op>.
+        for name, test in (("find", LAZY + "::is_match"), ("get", "str::starts_with"), ("get_mut", "str::starts_with")):
+            tree, items, f, leaf = traversal_roles(F, name)
+            item_keys = {g.key for g in items}
             r.analysed(f)
+            accp = _acc_param(f)
             s = Sym(f, copies=True)
             loops = [lp for lp in for_loops(f) if lp.source == ("field", ("param", 1), "children", NODE)]
             r.ob("traversal:Node::%s:loop-over-children" % name, len(loops) == 1, f.site, "%d loops over self.children" % len(loops))
@@ -42,12 +86,13 @@ def r08_1(ctx, rid="R08.1"):
                     gate.add(tuple((a[1], v) for a, v in p.conds if a[0] == "call"))
             r.ob("traversal:Node::%s:gated-by-own-regex" % name, gate == {((test, 1),)}, f.site, "children are visited iff %s is true: %s" % (test.rsplit("::", 1)[1], sorted(gate)))
             # every iteration calls the child and adds its whole result to the accumulator; no path leaves
-            # the loop early.  The result is added with `extend(acc, result)` or by a nested loop over the
-            # result that pushes every element (what `flat_map(..).collect()` is).
+            # the loop early.  The result is added with `extend(acc, result)`, by a nested loop over the
+            # result that pushes every element (what `flat_map(..).collect()` is), or by the child itself
+            # when the accumulator is handed down.
             ok = True
             n = 0
             acc = None
-            inner = [lp2 for lp2 in for_loops(f) if lp2 is not lp and lp2.next_block in lp.blocks() and mentions(lp2.source, lambda x: x[0] == "call" and x[1] == child)]
+            inner = [lp2 for lp2 in for_loops(f) if lp2 is not lp and lp2.next_block in lp.blocks() and mentions(lp2.source, lambda x: x[0] == "call" and x[1] in item_keys)]
             inner_ok = False
             if len(inner) == 1:
                 its = [p for p in inner[0].iteration_paths(s)]
@@ -57,41 +102,68 @@ def r08_1(ctx, rid="R08.1"):
                     acc = pushes[0][2][0]
             inner_heads = {inner[0].next_block, inner[0].head()} if inner else set()
             for p in lp.iteration_paths(s):
-                called = [e for e in p.events if e[0] == "call" and e[1] == child]
+                called = [e for e in p.events if e[0] == "call" and e[1] in item_keys]
                 ext = [e for e in p.events if e[0] == "call" and e[1].endswith("Extend>::extend") and called and e[2][1] == called[0][3]]
                 if ext:
                     acc = ext[0][2][0]
+                handed = accp is not None and len(called) == 1 and ("param", accp) in called[0][2]
+                if handed:
+                    acc = ("param", accp)
                 back = p.end[0] == "stop" and p.end[1] in (lp.next_block, lp.head())
-                in_inner = inner_ok and (p.end[0] == "loop" or (p.end[0] == "stop" and p.end[1] in inner_heads) or back)
                 if inner_ok and (p.end[0] == "loop" or (p.end[0] == "stop" and p.end[1] in inner_heads)):
                     continue  # the part of the iteration inside the nested loop is judged above
                 n += 1
-                if not (called and (ext or inner_ok) and back):
+                if not (called and (ext or inner_ok or handed) and back):
                     ok = False
-            r.ob("traversal:Node::%s:every-child-unioned" % name, ok and n == 1, f.site, "each iteration calls %s on the child, adds the whole result and continues (%d iteration paths)" % (child.rsplit("::", 2)[1] + "::" + name, n))
-            # the result returned is the accumulated vector
-            rets = {p.end[1] for p in s.paths(start=lp.exit) if p.end[0] == "ret"}
-            r.ob("traversal:Node::%s:returns-union" % name, acc is not None and rets == {acc}, f.site, "returns %s" % [show(x, f) for x in rets])
-        # Leaf::find returns all values iff its regex matches
-        f = F.method(LEAF, "find")
+            r.ob("traversal:Node::%s:every-child-unioned" % name, ok and n == 1, f.site, "each iteration calls the Item dispatcher on the child, adds the whole result and continues (%d iteration paths)" % n)
+            if accp is None:
+                # the result returned is the accumulated vector
+                rets = {p.end[1] for p in s.paths(start=lp.exit) if p.end[0] == "ret"}
+                r.ob("traversal:Node::%s:returns-union" % name, acc is not None and rets == {acc}, f.site, "returns %s" % [show(x, f) for x in rets])
+            else:
+                # the accumulator handed in is only handed on to the children
+                others = sorted({e[1] for p in s.paths() for e in p.events if e[0] == "call" and e[1] not in item_keys and _args_mention(e, ("param", accp))} | {"write" for p in s.paths() for e in p.events if e[0] == "write" and mentions(e[1], lambda x: x == ("param", accp))})
+                r.ob("traversal:Node::%s:returns-union" % name, acc == ("param", accp) and not others, f.site, "the accumulator parameter is only handed to the children: other uses %s" % others)
+                # ... and above the dispatchers the vector handed down is created empty and returned: by the
+                # public entry point or by a dispatcher wrapper it calls
+                okt = True
+                makers = 0
+                for g in [tree] + [i for i in items if _acc_param(i) is None]:
+                    for p in Sym(g, copies=True).paths():
+                        if p.end[0] != "ret":
+                            continue
+                        calls = [e for e in p.events if e[0] == "call" and e[1] in item_keys]
+                        loc = p.end[1]
+                        if len(calls) == 1 and loc == calls[0][3]:
+                            continue  # returns what the dispatcher returns
+                        inits = [e for e in p.events if e[0] in ("init", "set") and ("local", e[1]) == loc]
+                        used = [e[1] for e in p.events if e[0] == "call" and e[1] not in item_keys and _args_mention(e, loc)]
+                        makers += 1
+                        okt = okt and len(calls) == 1 and loc in calls[0][2] and len(inits) == 1 and inits[0][3] == ("call", "std::vec::Vec::new", ()) and not used
+                r.ob("traversal:RegexTreeMap::%s:returns-the-accumulator" % name, okt and makers >= 1, tree.site, "an empty vector is created, handed to the root and returned (%d such paths)" % makers)
+        # Leaf::find returns (or appends) all values iff its regex matches
+        tree, items, node, f = traversal_roles(F, "find")
         r.analysed(f)
+        accp = _acc_param(f)
         rows = {}
         for p in Sym(f, copies=True).paths():
             if p.end[0] == "ret":
                 m = [v for a, v in p.conds if a[0] == "call" and a[1] == LAZY + "::is_match"]
-                rows[m[0] if m else None] = p.end[1]
-        ok = rows.get(0) == ("call", "std::vec::Vec::new", ()) and rows.get(1, ("",))[0] == "call" and mentions(rows.get(1, ()), lambda x: x[0] == "call" and x[1] == "std::collections::HashMap::values" and x[2][0] == ("field", ("param", 1), "values", LEAF))
-        r.ob("traversal:Leaf::find", ok, f.site, "match -> all values; no match -> nothing: %s" % {k: show(v, f) for k, v in rows.items()})
-        # Leaf::get compares the whole pattern
-        g = F.method(LEAF, "get")
-        rows = {}
-        for p in Sym(g, copies=True).paths():
-            if p.end[0] == "ret":
-                for a, v in p.conds:
-                    if a[0] == "call" and "PartialEq" in a[1]:
-                        rows[v] = (a, p.end[1])
-        okg = 1 in rows and {rows[1][0][2][0], rows[1][0][2][1]} == {("param", 2), ("field", ("field", ("param", 1), "regex", LEAF), "original", LAZY)} and rows.get(0, (None, None))[1] == ("call", "std::vec::Vec::new", ())
-        r.ob("traversal:Leaf::get", okg, g.site, "get(pattern) compares the whole original pattern")
+                rows[m[0] if m else None] = _leaf_result(p, accp)
+        ok = set(rows) == {0, 1} and rows[0] == "nothing" and rows[1] == ("all", ("field", ("param", 1), "values", LEAF))
+        r.ob("traversal:Leaf::find", ok, f.site, "match -> all values; no match -> nothing: %s" % rows)
+        # Leaf::get / get_mut compare the whole pattern
+        for name in ("get", "get_mut"):
+            tree, items, node, g = traversal_roles(F, name)
+            accp = _acc_param(g)
+            rows = {}
+            for p in Sym(g, copies=True).paths():
+                if p.end[0] == "ret":
+                    for a, v in p.conds:
+                        if a[0] == "call" and "PartialEq" in a[1]:
+                            rows[v] = (a, _leaf_result(p, accp))
+            okg = 1 in rows and {rows[1][0][2][0], rows[1][0][2][1]} == {("param", 2), ("field", ("field", ("param", 1), "regex", LEAF), "original", LAZY)} and rows.get(0, (None, None))[1] == "nothing" and rows[1][1] == ("all", ("field", ("param", 1), "values", LEAF))
+            r.ob("traversal:Leaf::%s" % name, okg, g.site, "%s(pattern) compares the whole original pattern and yields every value: %s" % (name, {k: v[1] for k, v in rows.items()}))
         # len: Node sums all children, Leaf counts its values, tree delegates
         n = F.method(NODE, "len")
         s = Sym(n, copies=True)
@@ -106,18 +178,46 @@ def r08_1(ctx, rid="R08.1"):
         r.ob("traversal:Leaf::len", rets == {("call", "std::collections::HashMap::len", (("field", ("param", 1), "values", LEAF),))}, lf.site, "Leaf::len is values.len()")
         # Item dispatch: every operation forwards each variant to the same operation
         for name in ("find", "get", "get_mut", "len", "is_empty", "insert", "remove", "retain", "trace", "cache", "cached_len"):
-            f = F.method(ITEM, name, required=False)
-            if f is None:
-                continue
-            rows = {}
-            for p in Sym(f, copies=True).paths():
-                var = [v for a, v in p.conds if a[0] == "disc" and a[1] == ("param", 1)]
-                calls = [e[1] for e in p.events if e[0] == "call" and e[1] in (NODE + "::" + name, LEAF + "::" + name)]
-                if var:
-                    rows.setdefault(var[0], set()).update(calls)
-            ok = (rows.get("Node") == {NODE + "::" + name} or (name == "cache" and NODE + "::" + name in rows.get("Node", ()))) and (rows.get("Leaf") == {LEAF + "::" + name} or (name == "cache" and rows.get("Leaf") <= {LEAF + "::cache"})) and not rows.get("Empty")
-            r.ob("traversal:Item::%s:dispatch" % name, ok, f.site, "Item::%s forwards Node->Node::%s, Leaf->Leaf::%s, Empty->nothing: %s" % (name, name, name, {k: sorted(v) for k, v in rows.items()}))
-    ctx.run_rule(rid, "traversal completeness of find / get / len", body, floor=20)
+            if name in ("find", "get", "get_mut"):
+                tree, items, node, leaf = traversal_roles(F, name)
+                targets = [(g, node.key, leaf.key) for g in items]
+            else:
+                g = F.method(ITEM, name, required=False)
+                targets = [(g, NODE + "::" + name, LEAF + "::" + name)] if g is not None else []
+            for f, nk, lk in targets:
+                rows = {}
+                for p in Sym(f, copies=True).paths():
+                    var = [v for a, v in p.conds if a[0] == "disc" and a[1] == ("param", 1)]
+                    calls = [e[1] for e in p.events if e[0] == "call" and e[1] in (nk, lk)]
+                    if var:
+                        rows.setdefault(var[0], set()).update(calls)
+                if not rows and len(targets) > 1:
+                    continue  # a wrapper around the dispatcher
+                ok = (rows.get("Node") == {nk} or (name == "cache" and nk in rows.get("Node", ()))) and (rows.get("Leaf") == {lk} or (name == "cache" and rows.get("Leaf") <= {LEAF + "::cache"})) and not rows.get("Empty")
+                r.ob("traversal:Item::%s:dispatch" % name, ok, f.site, "Item::%s forwards Node->%s, Leaf->%s, Empty->nothing: %s" % (f.name, nk.rsplit("::", 2)[-2] + "::" + nk.rsplit("::", 1)[1], lk.rsplit("::", 2)[-2] + "::" + lk.rsplit("::", 1)[1], {k: sorted(v) for k, v in rows.items()}))
+    ctx.run_rule(rid, "traversal completeness of find / get / len", body, floor=21)
+
+
+def _leaf_result(p, accp):
+    """What a Leaf path yields: "nothing", ("all", <map>) for every value of a map, or a description."""
+    def all_values(x):
+        return [y[2][0] for y in walk(x) if y[0] == "call" and y[1] in ("std::collections::HashMap::values", "std::collections::HashMap::values_mut")]
+    if accp is None:
+        v = p.end[1]
+        if v == ("call", "std::vec::Vec::new", ()):
+            return "nothing"
+        src = all_values(v)
+        if v[0] == "call" and len(src) == 1:
+            return ("all", src[0])
+        return show(v)
+    touched = [e for e in p.events if (e[0] == "call" and _args_mention(e, ("param", accp))) or (e[0] == "write" and mentions(e[1], lambda x: x == ("param", accp)))]
+    if not touched:
+        return "nothing"
+    if len(touched) == 1 and touched[0][0] == "call" and touched[0][1].endswith("Extend>::extend") and touched[0][2][0] == ("param", accp):
+        src = all_values(touched[0][2][1])
+        if len(src) == 1 and touched[0][2][1][0] == "call" and touched[0][2][1][1].startswith("std::collections::HashMap::values"):
+            return ("all", src[0])
+    return "other: %s" % [e[1] for e in touched]
 
 
 def _ty(f, place):
